@@ -133,14 +133,16 @@ SPEC = {
     "Conformally_flat": dict(lt=(-1.5, 2.0), box=3.0, matter="T",
                              par=("eps", 0.05, 5.0)),
     "Harvey_Tsoubelis": dict(lt=(-1.5, 2.0), box=3.0, matter="T"),
-    "LCDM": dict(lt=(0.0, 4.0), box=50.0, matter="fluid"),
+    "LCDM": dict(lt=(0.0, 4.0), box=50.0, matter="fluid",
+                 par=("a_today", 0.05, 3.0)),
     "Non_diagonal": dict(lt=(-0.09, 2.0), box=12.0, matter="T"),
     "Rosquist_Jantzen": dict(lt=(-1.5, 2.0), box=3.0, matter="T"),
     "Schwarzschild_isotropic": dict(lt=(-1.5, 2.0), box=None, matter="T",
                                     par=("M", 0.2, 5.0)),
     "Szekeres": dict(lt=(0.0, 4.0), box=20.0, matter="fluid",
                      par=("Amp", 10.0, 3000.0)),
-    "EdS": dict(lt=(0.0, 4.0), box=50.0, matter="fluid"),
+    "EdS": dict(lt=(0.0, 4.0), box=50.0, matter="fluid",
+                par=("a_today", 0.05, 3.0)),
 }
 
 # functions offering analytical=True, with the coordinates they take
@@ -945,7 +947,7 @@ GENERIC = {
                              par=2.0),
     "Harvey_Tsoubelis": dict(t=2.4, pts=[[0.5, -0.9, 1.2], [-1.3, 0.4, 2.0]],
                              par=None),
-    "LCDM": dict(t=2500.0, pts=[[3.0, -7.0, 11.0]], par=None),
+    "LCDM": dict(t=2500.0, pts=[[3.0, -7.0, 11.0]], par=2.0),
     "Non_diagonal": dict(t=1.5, pts=[[0.4, 2.7, -3.1], [1.0, -2.0, 6.2]],
                          par=None),
     "Rosquist_Jantzen": dict(t=1.9, pts=[[0.6, -1.2, 0.3],
@@ -954,7 +956,7 @@ GENERIC = {
                                                 [0.2, 0.1, -0.25]], par=1.0),
     "Szekeres": dict(t=2900.0, pts=[[3.0, -7.0, 1.3], [-8.0, 2.0, 6.1]],
                      par=1000.0),
-    "EdS": dict(t=2500.0, pts=[[3.0, -7.0, 11.0]], par=None),
+    "EdS": dict(t=2500.0, pts=[[3.0, -7.0, 11.0]], par=0.5),
 }
 GENERIC_IC = [
     dict(sol="LCDM", t=1.0, N=[32, 24, 32], ratio=[1.0, 0.7, 1.6],
